@@ -78,6 +78,10 @@ def shards(tier):
     return 16
 
 
+FRESH = [0, None, None]     # counter, shard-wide SchemaLoader, last schema
+FRESH_PROBLEMS = []
+
+
 class World:
     """One schema + its packages."""
 
@@ -144,8 +148,25 @@ class World:
         self.abstracts = abstracts
 
     def fresh(self):
+        """A copy of the schema loaded independently: by the module-level
+        function, or - every other time - by one SchemaLoader that serves
+        the whole shard and is handed streams with a placeholder name (as
+        sys.stdin has): each loadFile() of such a stream is a load of its
+        own."""
         import ZConfig
-        return ZConfig.loadSchemaFile(io.StringIO(self.xml))
+        import ZConfig.loader
+        from . import conf_common as cc
+        FRESH[0] += 1
+        if FRESH[0] % 2:
+            return ZConfig.loadSchemaFile(io.StringIO(self.xml))
+        if FRESH[1] is None:
+            FRESH[1] = ZConfig.loader.SchemaLoader()
+        s = FRESH[1].loadFile(cc.PseudoNamed(self.xml))
+        if FRESH[2] is not None and s is FRESH[2]:
+            FRESH_PROBLEMS.append("the shared SchemaLoader handed out the "
+                                  "schema object of an earlier load again")
+        FRESH[2] = s
+        return s
 
 
 def make_step(rng, w, kind):
@@ -273,7 +294,10 @@ def okey(o):
     if _HEX is None:
         import re
         _HEX = re.compile(r"0x[0-9a-fA-F]+")
-    return ["reject", o[1], o[2], o[3], _HEX.sub("0x?", o[5])]
+    # (a schema default's position names the stream the schema came from:
+    # '<stdin>' for the copies read from a placeholder-named stream)
+    return ["reject", o[1], o[2], o[3],
+            _HEX.sub("0x?", o[5]).replace(", in <stdin>", "")]
 
 
 def run_history(ctx, w, steps, record=True):
@@ -380,6 +404,12 @@ def run_case(ctx, w, steps):
     import zcverif_dt
     zcverif_dt.EPOCH[0] = 0
     problems = run_history(ctx, w, steps)
+    if FRESH_PROBLEMS:
+        res.violate("independent-copy-is-not-independent",
+                    {"xml": w.xml, "note": FRESH_PROBLEMS[0]},
+                    "a new schema object per loadFile()", FRESH_PROBLEMS[0],
+                    detail=FRESH_PROBLEMS[0], vsig="fresh-identity")
+        del FRESH_PROBLEMS[:]
     if not problems:
         return
     case = {"xml": w.xml, "model": w.model,
@@ -440,6 +470,8 @@ def run_shard(ctx):
 
 
 def replay(ctx, case):
+    if "note" in case:
+        return      # identity of schema objects: seen in the run, not replayed
     space = packages.PackageSpace(os.path.join(ctx.tmp, "pkgs"), "c13r")
     try:
         # packages are referenced by name from the recorded XML/texts:
